@@ -202,7 +202,13 @@ def get_tu(tu, variant, workdir):
         key = "tu:" + variant
         if key not in SHARED:
             import jast
-            SHARED[key] = jast.TU(jast.dump_ast(workdir, name="u_" + variant, source=jast.unity_source(variant=variant)))
+            if variant == "w32":
+                # the portable configuration with 32-bit words: BigInt::word_t = uint32_t when the compiler has no __int128
+                SHARED[key] = jast.TU(jast.dump_ast(workdir, name="u_w32", extra_flags=["-U__SIZEOF_INT128__"]))
+                SHARED[key].wordbits = 32
+                SHARED[key].cfg_flags = ["-U__SIZEOF_INT128__"]
+            else:
+                SHARED[key] = jast.TU(jast.dump_ast(workdir, name="u_" + variant, source=jast.unity_source(variant=variant)))
         return SHARED[key]
 
 
@@ -213,6 +219,30 @@ def get_consts(tu, workdir):
             import consts
             SHARED["consts"] = consts.Consts(tu, workdir)
         return SHARED["consts"]
+
+
+def get_consts_variant(tu_variant, variant, workdir):
+    """constants of a variant configuration (e.g. 'w32': word_length etc. differ)"""
+    with _BUILD_LOCK:
+        key = "consts:" + variant
+        if key not in SHARED:
+            import consts
+            SHARED[key] = consts.Consts(tu_variant, workdir, extra_flags=["-U__SIZEOF_INT128__"] if variant == "w32" else [], tag="_" + variant)
+        return SHARED[key]
+
+
+def w32_clone(u, props=("C03", "C02")):
+    """the same unit (same contract text) on the AST of the portable configuration with 32-bit words"""
+    import copy
+    c = copy.copy(u)
+    c.__dict__ = dict(u.__dict__)
+    c.tu_variant = "w32"
+    c.label = u.label + " [portable C++, 32-bit words]"
+    c.props = list(props)
+    c.unwind = 2 * u.unwind + 2
+    c.unwindset = list(u.unwindset)
+    c.note = (u.note + "; " if u.note else "") + "AST dumped with -U__SIZEOF_INT128__ (word_t = uint32_t, dword_t = uint64_t); the VALn readings are the same integers"
+    return c
 
 
 class BVUnitClone(BVUnit):
